@@ -88,7 +88,13 @@ func (k Keeper) IsCertifiedIdentity(ctx sdk.Context, addr sdk.AccAddress) bool {
 // TotalBondedByCertifiedIdentities calculates the amount of total bonded stakes by certified identities.
 func (k Keeper) TotalBondedByCertifiedIdentities(ctx sdk.Context) sdk.Int {
 	bonded := sdk.ZeroInt()
+	// An identity's stake counts once, however many identity certificates name it.
+	counted := map[string]bool{}
 	for _, identity := range k.CertKeeper.GetCertifiedIdentities(ctx) {
+		if counted[string(identity)] {
+			continue
+		}
+		counted[string(identity)] = true
 		k.stakingKeeper.IterateDelegations(ctx, identity, func(index int64, delegation stakingtypes.DelegationI) (stop bool) {
 			val, found := k.stakingKeeper.GetValidator(ctx, delegation.GetValidatorAddr())
 			if !found {
